@@ -45,6 +45,10 @@ def run(chk, repo, tier):
                   floor=20)
     G6 = chk.rule('G6', 'no positional pairing / ordered result from a set in the search algorithms', floor=3)
     G7 = chk.rule('G7', 'feature constructors get a tuple (or Wildcard) of modes from their own alphabet', floor=10)
+    G9 = chk.rule('G9', 'the printer abbreviates a count tuple as i..j only when it equals tuple(range(i, j + 1)), the '
+                        'expansion the interpreter gives to a range', floor=1)
+    G10 = chk.rule('G10', 'Option(...) is constructed from a boolean expression over .option flags / constants, never '
+                          'from the truthiness of an object', floor=3)
     G8 = chk.rule('G8', 'children[k] is not read unconditionally when the interpreter itself asserts that fewer '
                         'children are possible', floor=3)
 
@@ -489,3 +493,77 @@ def run(chk, repo, tier):
                                       f'reads element {k} unconditionally', line=n.lineno,
                                       witness='the documented short form of the statement (optional argument omitted) '
                                               'raises IndexError instead of parsing')
+
+    # ---- G9 printer/parser inverse for ranges
+    sm = repo.module(f'{MFL}.stringify')
+    sa_ = sm.functions.get('_stringify_attribute')
+    ci = repo.module(f'{MFL}.statement.feature.count_interpreter').classes['CountInterpreter'].methods.get('range')
+    if sa_ is None or ci is None:
+        raise AnalysisError('_stringify_attribute / CountInterpreter.range not found')
+    # interpreter side: list(range(left, right + 1))
+    interp_ok = any(isinstance(c, ast.Call) and dotted(c.func) == 'range' and len(c.args) == 2
+                    and isinstance(c.args[1], ast.BinOp) and isinstance(c.args[1].op, ast.Add)
+                    and isinstance(c.args[1].right, ast.Constant) and c.args[1].right.value == 1
+                    for c in ast.walk(ci.node))
+    cfg = CFG(sa_.node)
+    param = sa_.params[0]
+    rets = [n for n in cfg.nodes.values() if n.kind == 'return' and isinstance(n.ast.value, ast.JoinedStr)
+            and any(isinstance(v, ast.Constant) and '..' in str(v.value) for v in n.ast.value.values)]
+    if not rets or not interp_ok:
+        raise AnalysisError('G9: range printing / range interpretation not found in the expected form')
+    for r in rets:
+        fvs = [unparse(v.value) for v in r.ast.value.values if isinstance(v, ast.FormattedValue)]
+        good = False
+        for t in [n for n in cfg.nodes.values() if n.kind == 'test']:
+            e = t.ast
+            if not (isinstance(e, ast.Compare) and len(e.ops) == 1 and isinstance(e.ops[0], ast.Eq)):
+                continue
+            sides = [e.left, e.comparators[0]]
+            others = [s_ for s_ in sides if not (isinstance(s_, ast.Name) and s_.id == param)]
+            if len(others) != 1 or not any(isinstance(s_, ast.Name) and s_.id == param for s_ in sides):
+                continue
+            o = others[0]
+            if isinstance(o, ast.Call) and dotted(o.func) == 'tuple' and len(o.args) == 1 \
+                    and isinstance(o.args[0], ast.Call) and dotted(o.args[0].func) == 'range' \
+                    and len(o.args[0].args) == 2 and len(fvs) == 2 \
+                    and unparse(o.args[0].args[0]) == fvs[0] and unparse(o.args[0].args[1]) == f'{fvs[1]} + 1' \
+                    and cfg.edge_dominates(t.id, 'true', r.id):
+                good = True
+        chk.instance(G9, f'{unparse(r.ast.value)} guarded by {param} == tuple(range({", ".join(fvs)} + 1)): {good}')
+        if not good:
+            chk.violation(G9, sm.rel, sa_.qualname, unparse(r.ast),
+                          'a count tuple is printed as a range without testing that it is exactly that range',
+                          line=r.line,
+                          witness='TRANSITS([0,4,1,3]) (or the set-ordered result of a union) prints as TRANSITS(0..3): '
+                                  'parsing the printed form gives a different search space')
+    # ---- G10 Option construction
+    for mod in repo.modules.values():
+        if not mod.name.startswith(MFL):
+            continue
+        for f in mod.functions.values():
+            for c in calls_in(f.node):
+                if dotted(c.func) != 'Option' or len(c.args) != 1:
+                    continue
+                a = c.args[0]
+
+                def boolish(e):
+                    if isinstance(e, ast.Constant) and isinstance(e.value, bool):
+                        return True
+                    if isinstance(e, ast.Attribute) and e.attr == 'option':
+                        return True
+                    if isinstance(e, ast.UnaryOp) and isinstance(e.op, ast.Not):
+                        return boolish(e.operand)
+                    if isinstance(e, ast.BoolOp):
+                        return all(boolish(v) for v in e.values)
+                    if isinstance(e, ast.IfExp):
+                        return boolish(e.body) and boolish(e.orelse) and boolish(e.test)
+                    if isinstance(e, ast.Compare):
+                        return True
+                    return False
+                chk.instance(G10, f'{f.qualname}: {unparse(c)}')
+                if not boolish(a):
+                    chk.violation(G10, mod.rel, f.qualname, unparse(c),
+                                  'the flag is derived from the truthiness of an object (an Option instance is always '
+                                  'truthy), not from its .option value', line=c.lineno,
+                                  witness='COVARIATE?(CL,WT,EXP) - COVARIATE(CL,WT,EXP): the optional effect is not '
+                                          'removed, so effects(A - B) != effects(A) minus effects(B)')
